@@ -53,6 +53,20 @@ type PayObs struct {
 	Preimage  string
 	BtcHeight uint32
 	LHeight   uint32
+	Lnd       *LndPayReq // tier 2: the SendPaymentV2 request the real lnd adapter emitted
+}
+
+// LndPayReq: the fields of a routerrpc.SendPaymentRequest the oracles look at.
+type LndPayReq struct {
+	OutgoingChanIds []uint64
+	OutgoingChanId  uint64
+	MaxParts        uint32
+	CltvLimit       int32
+	FeeLimitMsat    int64
+	AmtMsat, Amt    int64
+	TimeoutSeconds  int32
+	HasDest         bool
+	LastHopPubkey   bool
 }
 
 type TxObs struct {
